@@ -28,7 +28,8 @@ C03 / C11 model: `osyris.plot.map.map` (zero-thickness and thick maps) and the n
                   from the source text which form the working tree has:
                     slab     ½·diag·dz                              | dz/2 + ½·diag·s
                     radial   |xyz − ½·s·diag·(1,1,1)| ≤ R           | |xyz| − ½·s·diag ≤ R,  R = max(dx,dy,dz)·0.6·diag
-                    depth    (thick, dx omitted) depth range = extent of the selected cells | [−dz/2, dz/2]
+                    depth    (dx omitted) depth window = extent of the selected cells (thick: dz is ignored; zero
+                             thickness: the step zmax can be ≤ 0)   | [−dz/2, dz/2] resp. as with dx given (dz = dx)
                     depth2d  (thick, 2-D data) depth footprint from Z = 0 and half_size     | the whole depth range
 * threads         `prange` over cells: every thread executes the stores of its chunk of cells;
                   schedules are the interleavings of `Hist.interleave` (atomic element stores).
@@ -331,8 +332,9 @@ structure Cfg where
   diag : Rat
   slab : Sel
   radial : Sel
-  /-- depth range of a thick map whose dx is not given: coded = extent of the selected cells
-      (dz only enters the slab pre-selection), sound = [-dz/2, dz/2] -/
+  /-- depth window when dx is not given: coded = extent of the selected cells (thick: dz only enters the
+      slab pre-selection; zero thickness: the depth step `zmax` may be ≤ 0), sound = [-dz/2, dz/2] resp.
+      the window of an explicit dx (dz = dx = xmax − xmin) -/
   depth : Sel
   /-- depth footprint for 2-D data: coded = from Z = 0 and half_size like the other axes (depth samples
       further than half_size from the plane are never written), sound = the whole depth range -/
@@ -441,7 +443,8 @@ def window (cfg : Cfg) (ks : List KCell) : Option Window :=
     let z1 ← maxL (ks.map fun k => k.Z + k.hs)
     match cfg.dz, cfg.depth with
     | some dz, .sound => pure ⟨x0, x1, y0, y1, -(1 : Rat) / 2 * dz, -(1 : Rat) / 2 * dz + dz⟩
-    | _, _ => pure ⟨x0, x1, y0, y1, z0, z1⟩
+    | none, .sound => pure ⟨x0, x1, y0, y1, -(1 : Rat) / 2 * (x1 - x0), -(1 : Rat) / 2 * (x1 - x0) + (x1 - x0)⟩
+    | _, .coded => pure ⟨x0, x1, y0, y1, z0, z1⟩
 
 inductive Fail
   | noCells        -- RuntimeError("No cells were selected ...")
